@@ -135,7 +135,7 @@ Backtrack(i, L) ==
             THEN [L.u EXCEPT !.user = PFSet(L.u.host.o, L.po), !.pass = PFSet(L.po + 1, i)]
             ELSE [L.u EXCEPT !.user = PFSet(L.u.host.o, i), !.pass = PF0]
   IN Go([L EXCEPT !.u = [u1 EXCEPT !.host = PF0, !.port = PF0, !.portno = 0, !.params = PF0, !.headers = PF0],
-                  !.fu = TRUE, !.eh = FALSE, !.state = "uHost0", !.s = i + 1])       \* NOTE: po is not cleared
+                  !.fu = TRUE, !.eh = FALSE, !.pn = 0, !.state = "uHost0", !.s = i + 1])   \* NOTE: po is not cleared; pn is (fix in /repo)
 
 \* case uParam0, uParam1:
 St_Param(c, i, L) ==
